@@ -97,7 +97,7 @@ def tempo_maps(draw, max_segments: int = 24, values=bpm_values, res=resolutions,
             max_gap = int(remaining / prev_spt)
             if max_gap < 1:
                 break
-            gap_choice = pg if pattern is not None else draw(st.integers(0, 5))
+            gap_choice = pg if pattern is not None else draw(st.integers(0, 6))
             if pattern is not None:
                 gap = 1 if pg == 1 else 2 if pg == 2 else pgap
                 gap = max(1, min(gap, max_gap))
@@ -114,6 +114,10 @@ def tempo_maps(draw, max_segments: int = 24, values=bpm_values, res=resolutions,
                 gap = draw(st.integers(1, 4 * r))
             elif gap_choice == 4:
                 gap = draw(st.integers(1, 64))
+            elif gap_choice == 6:
+                # a LONG stretch: a sizeable share of what the time budget leaves (under a fast tempo this
+                # puts the next tempo change at a tick of 10^10 .. 10^13)
+                gap = max_gap // draw(st.sampled_from([1, 2, 3, 10, 1000]))
             else:
                 gap = draw(st.integers(1, 10 ** 6))
             if gap_choice != -1:
@@ -416,8 +420,14 @@ def chart_specs(draw, max_segments: int = 8, max_tracks: int = 2, max_notes: int
         sync.append([t, "TS", draw(st.integers(1, 16)), draw(st.one_of(st.none(), st.integers(0, 6)))])
     for t, n in tmap["tempo"]:
         sync.append([t, "B", n])
-    for t in sorted(draw(st.sets(tick_st, max_size=max_anchors))):
-        sync.append([t, "A", draw(st.integers(0, anchor_max))])
+    for t in sorted(draw(st.sets(st.one_of(tick_st, st.sampled_from(tm.ticks)), max_size=max_anchors))):
+        # an anchor's literal time pins nothing: drawn at random, or (as in real charts) equal / very close
+        # to what the tempo map says for its tick
+        if draw(st.booleans()):
+            us = draw(st.integers(0, anchor_max))
+        else:
+            us = max(0, int(tm.exact_us(t)) + draw(st.sampled_from([0, 1, -1, 7, -7, 500, -500, 999, -999, 1001, 10 ** 4])))
+        sync.append([t, "A", us])
     order = {"TS": 0, "B": 1, "A": 2}
     sync.sort(key=lambda it: (it[0], order[it[1]]))
     # global events
